@@ -1,5 +1,6 @@
 import Ogorek.Lemmas.RoundTrip
 import Ogorek.Props.C04
+import Ogorek.Lemmas.QuoteInv
 
 /-!
   C03 — Encode then Decode is the identity on canonical values, a normal form otherwise.
@@ -110,5 +111,27 @@ example : canon { pyDict := true, su := true }
 example : canon { pyDict := false, su := false }
     (.tuple [.map [(.int 1, .str (sb "a")), (.float 0, .none), (.str (sb "k"), .map [])], .big 3 (-5)]) = true := by
   decide
+
+end Ogorek
+
+namespace Ogorek
+
+/-- **C03 (STRING text form, protocol 0).** For EVERY byte string `s` — any bytes, valid UTF-8 or not —
+    and every printability table that does not call LF printable: the decoder reads `S"…"\n` as written
+    by the encoder (`pyquote`) back as exactly `s`, and stops right after the line.  (The quoting and
+    `pydecodeStringEscape` are inverse: `pyquote_inv`; the quoted text holds no newline: `pyquote_no_lf`.) -/
+theorem C03_string_p0 (ip : IsPrint) (hip : ip 10 = false) (c : ECfg) (hp : ¬ c.proto ≥ 1) (s t : Bytes) :
+    parseInsn (flat (encodeByteString ip c s) ++ t) = .ok (.pushByteString s, t) := by
+  simp only [encodeByteString, hp, if_false, flat_emit]
+  have hl := pyquote_no_lf ip hip s
+  have e : (83 :: pyquote ip s ++ [10]) ++ t = 83 :: (pyquote ip s ++ 10 :: t) := by simp
+  rw [e]
+  simp only [parseInsn, Rd.bind, readByte, parseArg_83, Rd.mapE, readLine_line _ _ hl]
+  have hq : parseStringArg (pyquote ip s) = .ok s := by
+    unfold parseStringArg pyquote
+    have hlen : ¬ ((34 :: (pyquoteAux ip s.length s ++ [34])).length < 2) := by simp
+    simp only [hlen, if_false]
+    simp [pyquote_inv ip s]
+  simp [hq, Rd.pure, Functor.map, Except.map]
 
 end Ogorek
